@@ -404,6 +404,92 @@ Proof.
     destruct (e1 =? 0) eqn:E; [apply Z.eqb_eq in E; contradiction|]. cbn. apply Z.eqb_neq in E. exact E.
 Qed.
 
+(* ---------- the same over QUIC ---------- *)
+
+Lemma first_common_mem srv cli p : first_common srv cli = Some p -> mem_bytes p cli = true.
+Proof.
+  induction srv as [|q srv IH]; cbn [first_common]; [discriminate|].
+  destruct (mem_bytes q cli) eqn:E; [|exact IH]. intro H. inversion H; subst. exact E.
+Qed.
+
+(* a QUIC handshake in which the client offers only ntske/1 completes only with ntske/1 *)
+Lemma quic_negotiate_ntske srv p : quic_negotiate [alpn_ntske] srv = HsOk p -> bytes_eqb p alpn_ntske = true.
+Proof.
+  unfold quic_negotiate. destruct (first_common srv [alpn_ntske]) as [q|] eqn:E; [|discriminate].
+  intro H. inversion H; subst. apply first_common_mem in E. cbn [mem_bytes] in E.
+  rewrite orb_false_r in E. exact E.
+Qed.
+
+Definition alpn_agreed_quic (sc : script) : bool :=
+  (sc_mode sc =? 0) &&
+  match quic_negotiate [alpn_ntske] (sc_alpn sc) with HsOk p => bytes_eqb p alpn_ntske | HsFail => false end.
+
+Definition expected_data_quic (ex : exporter) (sc : script) : kdata :=
+  let a := scanned (sc_recs sc) (sc_cut sc) in
+  {| k_c2s := match ex exporter_label ctx_c2s key_len with Some k => k | None => [] end;
+     k_s2c := match ex exporter_label ctx_s2c key_len with Some k => k | None => [] end;
+     k_server := opt_bytes (a_server a) (sc_host sc);
+     k_port := opt_z (a_port a) 10123;
+     k_cookies := a_cookies a;
+     k_algo := 15 |}.
+
+Lemma exchange_strict_quic ex st sc : sc_strict sc = true -> exporter_ok ex ->
+  if alpn_agreed_quic sc && stream_accepted (sc_recs sc) (sc_cut sc)
+  then exchange_keys_quic ex st (peer_of_script sc) = (expected_data_quic ex sc, 0)
+  else snd (exchange_keys_quic ex st (peer_of_script sc)) <> 0.
+Proof.
+  intros Hs [c2s [s2c [Hc2s Hs2c]]].
+  unfold exchange_keys_quic, dial_quic, alpn_agreed_quic, peer_of_script. cbn [p_up p_alpn p_host p_stream].
+  destruct (sc_mode sc =? 0); [|cbn; unfold e_dial; lia].
+  destruct (quic_negotiate [alpn_ntske] (sc_alpn sc)) as [|proto] eqn:Hq; [cbn; unfold e_dial; lia|].
+  rewrite (quic_negotiate_ntske _ _ Hq).
+  cbn [andb negb Z.eqb].
+  set (d0 := set_port (set_server kzero (sc_host sc)) ntp_port_scion).
+  pose proof (read_script sc d0 Hs) as Hread.
+  unfold stream_accepted, expected_data_quic, scanned.
+  destruct (scan (delivered (sc_recs sc) (sc_cut sc)) acc0) as [res a].
+  destruct res.
+  - rewrite Hread. cbn [Z.eqb negb snd]. unfold export_keys. rewrite Hs2c, Hc2s. cbn [Z.eqb negb].
+    unfold algo_is_siv, has_cookie, cookies_fit, set_c2s, set_s2c, apply_acc, d0, set_port, set_server, kzero, ntp_port_scion.
+    cbn [k_c2s k_s2c k_server k_port k_cookies k_algo app].
+    destruct (a_cookies a) as [|c cs]; [rewrite andb_false_r; cbn; unfold e_nocookies; lia|].
+    rewrite andb_true_r, existsb_too_long.
+    destruct (forallb cookie_fits (c :: cs)); cbn [negb]; [|rewrite andb_false_r; cbn; unfold e_cookielen; lia].
+    rewrite andb_true_r. destruct (a_algo a) as [v|]; cbn [opt_z].
+    + unfold aes_siv_cmac_256. destruct (v =? 15) eqn:Ev.
+      * apply Z.eqb_eq in Ev. subst v. cbn. reflexivity.
+      * cbn. unfold e_algo. lia.
+    + cbn. unfold e_algo. lia.
+  - destruct (read_stream (script_stream sc) d0) as [d1 e1]. cbn [snd] in Hread.
+    destruct (e1 =? 0) eqn:E; [apply Z.eqb_eq in E; contradiction|]. cbn. apply Z.eqb_neq in E. exact E.
+  - destruct (read_stream (script_stream sc) d0) as [d1 e1]. cbn [snd] in Hread.
+    destruct (e1 =? 0) eqn:E; [apply Z.eqb_eq in E; contradiction|]. cbn. apply Z.eqb_neq in E. exact E.
+Qed.
+
+(* both transports at once: quic = Fetcher.QUIC.Enabled *)
+Definition alpn_agreed_of (quic : bool) (sc : script) : bool :=
+  (sc_mode sc =? 0) &&
+  match negotiate quic [alpn_ntske] (sc_alpn sc) with HsOk p => bytes_eqb p alpn_ntske | HsFail => false end.
+
+Definition expected_data_of (quic : bool) (ex : exporter) (sc : script) : kdata :=
+  if quic then expected_data_quic ex sc else expected_data ex sc.
+
+Lemma exchange_strict_of quic ex st sc : sc_strict sc = true -> exporter_ok ex ->
+  if alpn_agreed_of quic sc && stream_accepted (sc_recs sc) (sc_cut sc)
+  then exchange_keys_of quic ex st (peer_of_script sc) = (expected_data_of quic ex sc, 0)
+  else snd (exchange_keys_of quic ex st (peer_of_script sc)) <> 0.
+Proof.
+  intros Hs Hex. destruct quic.
+  - exact (exchange_strict_quic ex st sc Hs Hex).
+  - exact (exchange_strict ex sc Hs Hex).
+Qed.
+
+Lemma expected_data_of_fields quic ex sc :
+  k_cookies (expected_data_of quic ex sc) = a_cookies (scanned (sc_recs sc) (sc_cut sc)) /\
+  k_server (expected_data_of quic ex sc) = opt_bytes (a_server (scanned (sc_recs sc) (sc_cut sc))) (sc_host sc) /\
+  k_port (expected_data_of quic ex sc) = opt_z (a_port (scanned (sc_recs sc) (sc_cut sc))) (std_ntp_port quic).
+Proof. destruct quic; repeat split; reflexivity. Qed.
+
 (* ---------- what any successful exchange implies (also for non-conforming streams) ---------- *)
 
 Ltac bad_pair := let H := fresh in intro H; apply (f_equal snd) in H; cbv in H; discriminate H.
@@ -432,6 +518,62 @@ Proof.
   rewrite Ek. rewrite existsb_too_long in Et. apply negb_false_iff in Et. exact Et.
 Qed.
 
+Lemma exchange_success_facts_quic ex st p d : exchange_keys_quic ex st p = (d, 0) ->
+  p_up p = true /\
+  (exists proto, quic_negotiate [alpn_ntske] (p_alpn p) = HsOk proto /\ bytes_eqb proto alpn_ntske = true) /\
+  k_cookies d <> [] /\ k_algo d = 15 /\
+  ex exporter_label ctx_c2s key_len = Some (k_c2s d) /\ ex exporter_label ctx_s2c key_len = Some (k_s2c d) /\
+  forallb cookie_fits (k_cookies d) = true.
+Proof.
+  unfold exchange_keys_quic, dial_quic. destruct (p_up p); [|bad_pair].
+  destruct (quic_negotiate [alpn_ntske] (p_alpn p)) as [|proto] eqn:Hq; [bad_pair|].
+  pose proof (quic_negotiate_ntske _ _ Hq) as Ep.
+  cbn [Z.eqb negb].
+  destruct (read_stream (p_stream p) _) as [d1 e1]. destruct (e1 =? 0) eqn:Ee1; cbn [negb]; [|intro H; inversion H; subst; discriminate Ee1].
+  unfold export_keys.
+  destruct (ex exporter_label ctx_s2c key_len) as [s2c|] eqn:Es; [|bad_pair].
+  destruct (ex exporter_label ctx_c2s key_len) as [c2s|] eqn:Ec; [|bad_pair].
+  cbn [Z.eqb negb].
+  destruct (k_cookies (set_c2s (set_s2c d1 s2c) c2s)) as [|c cs] eqn:Ek; [bad_pair|].
+  destruct (existsb cookie_too_long (c :: cs)) eqn:Et; [bad_pair|].
+  destruct (k_algo (set_c2s (set_s2c d1 s2c) c2s) =? aes_siv_cmac_256) eqn:Ea; cbn [negb]; [|bad_pair].
+  intro H. inversion H; subst. split; [reflexivity|]. split; [exists proto; split; [reflexivity|exact Ep]|].
+  split; [rewrite Ek; discriminate|]. split; [apply Z.eqb_eq in Ea; exact Ea|]. split; [reflexivity|]. split; [reflexivity|].
+  rewrite Ek. rewrite existsb_too_long in Et. apply negb_false_iff in Et. exact Et.
+Qed.
+
+Lemma exchange_success_facts_of quic ex st p d : exchange_keys_of quic ex st p = (d, 0) ->
+  p_up p = true /\
+  (exists proto, negotiate quic [alpn_ntske] (p_alpn p) = HsOk proto /\ bytes_eqb proto alpn_ntske = true) /\
+  k_cookies d <> [] /\ k_algo d = 15 /\
+  ex exporter_label ctx_c2s key_len = Some (k_c2s d) /\ ex exporter_label ctx_s2c key_len = Some (k_s2c d) /\
+  forallb cookie_fits (k_cookies d) = true.
+Proof.
+  destruct quic.
+  - exact (exchange_success_facts_quic ex st p d).
+  - exact (exchange_success_facts ex p d).
+Qed.
+
+(* the QUIC branch starts from the defaults of dialQUIC (fix commit 38f59d0): nothing of what
+   the fetcher held before the call reaches the result; when the dial fails f.data is untouched *)
+Lemma exchange_quic_ignores_state ex st st' p :
+  exchange_keys_quic ex st p = exchange_keys_quic ex st' p \/
+  (exchange_keys_quic ex st p = (st, e_dial) /\ exchange_keys_quic ex st' p = (st', e_dial)).
+Proof.
+  unfold exchange_keys_quic, dial_quic. destruct (p_up p); [|right; split; reflexivity].
+  destruct (quic_negotiate [alpn_ntske] (p_alpn p)); [right; split; reflexivity|left; reflexivity].
+Qed.
+
+Lemma exchange_of_ignores_state quic ex st st' p :
+  snd (exchange_keys_of quic ex st p) = snd (exchange_keys_of quic ex st' p) /\
+  (snd (exchange_keys_of quic ex st p) = 0 -> exchange_keys_of quic ex st p = exchange_keys_of quic ex st' p).
+Proof.
+  destruct quic; cbn [exchange_keys_of]; [|split; reflexivity].
+  destruct (exchange_quic_ignores_state ex st st' p) as [H|[H1 H2]].
+  - rewrite H. split; reflexivity.
+  - rewrite H1, H2. cbn [snd]. split; [reflexivity|]. unfold e_dial. discriminate.
+Qed.
+
 (* ---------- the oracle accepts every history of the model ---------- *)
 
 Definition Rel (st : kdata) (ost : ostate) : Prop :=
@@ -446,18 +588,18 @@ Proof. intro H. unfold peer_key. change (ex rfc_label [0; 0; 0; 15; 0] 32) with 
 Lemma peer_key_s2c ex k : ex exporter_label ctx_s2c key_len = Some k -> peer_key ex 1 = k.
 Proof. intro H. unfold peer_key. change (ex rfc_label [0; 0; 0; 15; 1] 32) with (ex exporter_label ctx_s2c key_len). rewrite H. reflexivity. Qed.
 
-Lemma obs_alpn sc :
-  (sc_mode sc =? 0) && fst (peer_handshake sc) && bytes_eqb (snd (peer_handshake sc)) ntske1 = alpn_agreed sc.
+Lemma obs_alpn quic sc :
+  (sc_mode sc =? 0) && fst (peer_handshake quic sc) && bytes_eqb (snd (peer_handshake quic sc)) ntske1 = alpn_agreed_of quic sc.
 Proof.
-  unfold peer_handshake, alpn_agreed. destruct (sc_mode sc =? 0); [|reflexivity].
-  destruct (tls_negotiate [alpn_ntske] (sc_alpn sc)); reflexivity.
+  unfold peer_handshake, alpn_agreed_of. destruct (sc_mode sc =? 0); [|reflexivity].
+  destruct (negotiate quic [alpn_ntske] (sc_alpn sc)); reflexivity.
 Qed.
 
 Lemma Rel_free st ost : os_free ost = true -> Rel st ost.
 Proof. intro H. left. exact H. Qed.
 
-Lemma fetch_step ex st ost sc : Rel st ost -> exporter_ok ex ->
-  exists ost', fetch_ok ost sc (snd (model_fetch ex st sc)) = Some ost' /\ Rel (fst (model_fetch ex st sc)) ost'.
+Lemma fetch_step quic ex st ost sc : Rel st ost -> exporter_ok ex ->
+  exists ost', fetch_ok quic ost sc (snd (model_fetch quic ex st sc)) = Some ost' /\ Rel (fst (model_fetch quic ex st sc)) ost'.
 Proof.
   intros HR Hex. unfold fetch_ok. destruct (os_free ost) eqn:Hfree.
   { exists ost. split; [reflexivity|apply Rel_free; exact Hfree]. }
@@ -465,10 +607,10 @@ Proof.
   unfold model_fetch, fetch_data. rewrite <- Hpool.
   destruct (k_cookies st) as [|c rest] eqn:Hck.
   - (* a new exchange *)
-    destruct (exchange_keys ex (peer_of_script sc)) as [d e] eqn:Hx.
+    destruct (exchange_keys_of quic ex st (peer_of_script sc)) as [d e] eqn:Hx.
     destruct (e =? 0) eqn:He.
     + apply Z.eqb_eq in He. subst e.
-      destruct (exchange_success_facts ex _ d Hx) as [Hup [[proto [Hneg Hproto]] [Hcne [Halgo [Hc2s [Hs2c Hfits]]]]]].
+      destruct (exchange_success_facts_of quic ex st _ d Hx) as [Hup [[proto [Hneg Hproto]] [Hcne [Halgo [Hc2s [Hs2c Hfits]]]]]].
       cbn [p_up peer_of_script] in Hup. cbn [p_alpn peer_of_script] in Hneg.
       assert (Hm1 : (sc_mode sc =? 1) = false).
       { apply Z.eqb_eq in Hup. rewrite Hup. reflexivity. }
@@ -482,15 +624,13 @@ Proof.
       cbn [andb Z.eqb implb].
       destruct (k_cookies d) as [|c0 cs0] eqn:Hcd; [congruence|].
       destruct (sc_strict sc) eqn:Hstrict.
-      * pose proof (exchange_strict ex sc Hstrict Hex) as Hstr.
-        assert (Hag : alpn_agreed sc = true).
-        { unfold alpn_agreed. rewrite Hup, Hneg. exact Hproto. }
+      * pose proof (exchange_strict_of quic ex st sc Hstrict Hex) as Hstr.
+        assert (Hag : alpn_agreed_of quic sc = true).
+        { unfold alpn_agreed_of. rewrite Hup, Hneg. exact Hproto. }
         rewrite Hag in Hstr. cbn [andb] in Hstr.
         destruct (stream_accepted (sc_recs sc) (sc_cut sc)).
-        -- rewrite Hx in Hstr. assert (Hd : d = expected_data ex sc) by congruence. clear Hstr. cbn [Bool.eqb].
-           assert (E1 : k_cookies d = a_cookies (scanned (sc_recs sc) (sc_cut sc))) by (rewrite Hd; reflexivity).
-           assert (E2 : k_server d = opt_bytes (a_server (scanned (sc_recs sc) (sc_cut sc))) (sc_host sc)) by (rewrite Hd; reflexivity).
-           assert (E3 : k_port d = opt_z (a_port (scanned (sc_recs sc) (sc_cut sc))) 123) by (rewrite Hd; reflexivity).
+        -- rewrite Hx in Hstr. assert (Hd : d = expected_data_of quic ex sc) by congruence. clear Hstr. cbn [Bool.eqb].
+           destruct (expected_data_of_fields quic ex sc) as [E1 [E2 E3]]. rewrite <- Hd in E1, E2, E3.
            rewrite <- E1, <- E2, <- E3, Hcd, bytes_list_eqb_refl, bytes_eqb_refl, Z.eqb_refl. cbn [andb].
            eexists. split; [reflexivity|]. right. cbn. split; [reflexivity|]. split; [reflexivity|].
            intros _. repeat split; try reflexivity. exact Halgo.
@@ -504,13 +644,13 @@ Proof.
         rewrite He. cbn [negb andb]. rewrite !andb_false_r. cbn [andb Bool.eqb implb].
         destruct (sc_strict sc); cbn [andb];
           (exists os0; split; [reflexivity|]; right; cbn; split; [reflexivity|]; split; [congruence|discriminate]).
-      * destruct (peer_handshake sc) as [hs pr] eqn:Hph.
+      * destruct (peer_handshake quic sc) as [hs pr] eqn:Hph.
         cbn [snd fst o_conns o_hs_ok o_negotiated o_peer_c2s o_peer_s2c o_err o_data].
         rewrite He. cbn [Z.eqb Pos.eqb andb].
-        pose proof (obs_alpn sc) as Hoa. rewrite Hph in Hoa. cbn [fst snd] in Hoa. rewrite Hoa.
+        pose proof (obs_alpn quic sc) as Hoa. rewrite Hph in Hoa. cbn [fst snd] in Hoa. rewrite Hoa.
         destruct (sc_strict sc) eqn:Hstrict.
-        -- pose proof (exchange_strict ex sc Hstrict Hex) as Hstr. rewrite Hx in Hstr. cbn [snd] in Hstr.
-           destruct (alpn_agreed sc && stream_accepted (sc_recs sc) (sc_cut sc)).
+        -- pose proof (exchange_strict_of quic ex st sc Hstrict Hex) as Hstr. rewrite Hx in Hstr. cbn [snd] in Hstr.
+           destruct (alpn_agreed_of quic sc && stream_accepted (sc_recs sc) (sc_cut sc)).
            ++ inversion Hstr. subst e. discriminate He.
            ++ cbn [Bool.eqb andb]. exists os0. split; [reflexivity|]. right. cbn. split; [reflexivity|]. split; [congruence|discriminate].
         -- cbn [implb andb]. exists os0. split; [reflexivity|]. right. cbn. split; [reflexivity|]. split; [congruence|discriminate].
@@ -538,20 +678,20 @@ Qed.
 
 Definition mop_ok (m : mop) : Prop := match m with MFetch _ ex => exporter_ok ex | MStore _ => True end.
 
-Lemma oracle_holds_gen ms : forall st ost, Rel st ost -> Forall mop_ok ms ->
-  hist_ok ost (map op_of ms) (model_run st ms) = true.
+Lemma oracle_holds_gen quic ms : forall st ost, Rel st ost -> Forall mop_ok ms ->
+  hist_ok quic ost (map op_of ms) (model_run quic st ms) = true.
 Proof.
   induction ms as [|m ms IH]; intros st ost HR Hok; [reflexivity|].
   inversion Hok as [|m' ms' Hm Hms]; subst. destruct m as [sc ex|c]; cbn [map op_of model_run hist_ok].
-  - destruct (fetch_step ex st ost sc HR Hm) as [ost' [Hf HR']].
-    destruct (model_fetch ex st sc) as [st' o]. cbn [fst snd] in *. cbn [hist_ok]. rewrite Hf. apply IH; assumption.
+  - destruct (fetch_step quic ex st ost sc HR Hm) as [ost' [Hf HR']].
+    destruct (model_fetch quic ex st sc) as [st' o]. cbn [fst snd] in *. cbn [hist_ok]. rewrite Hf. apply IH; assumption.
   - apply IH; [apply store_step; exact HR|exact Hms].
 Qed.
 
 Lemma Rel_init : Rel kzero os0.
 Proof. right. cbn. split; [reflexivity|]. split; [congruence|discriminate]. Qed.
 
-Theorem oracle_holds_on_model ms : Forall mop_ok ms -> C20_ok (map op_of ms) (model_run kzero ms) = true.
+Theorem oracle_holds_on_model quic ms : Forall mop_ok ms -> C20_ok quic (map op_of ms) (model_run quic kzero ms) = true.
 Proof. intro H. apply oracle_holds_gen; [apply Rel_init|exact H]. Qed.
 
 (* ---------- the way the transport cuts the stream into pieces does not matter ---------- *)
@@ -668,21 +808,27 @@ Qed.
 
 (* ---------- the fetcher ---------- *)
 
-Lemma fetch_fresh_independent ex st p : k_cookies st = [] -> fetch_data ex st p = fetch_data ex kzero p.
-Proof. intro H. unfold fetch_data. rewrite H. reflexivity. Qed.
-
-Lemma fetch_cached ex st p c rest : k_cookies st = c :: rest ->
-  fetch_data ex st p = (set_cookies st rest, {| fo_err := 0; fo_data := st; fo_exchanged := false |}).
-Proof. intro H. unfold fetch_data. rewrite H. reflexivity. Qed.
-
-Lemma fetch_exchange_result ex st p : k_cookies st = [] ->
-  fo_exchanged (snd (fetch_data ex st p)) = true /\
-  fo_err (snd (fetch_data ex st p)) = snd (exchange_keys ex p) /\
-  (snd (exchange_keys ex p) = 0 ->
-     fo_data (snd (fetch_data ex st p)) = fst (exchange_keys ex p) /\
-     fst (fetch_data ex st p) = set_cookies (fst (exchange_keys ex p)) (tl (k_cookies (fst (exchange_keys ex p))))).
+Lemma fetch_fresh_independent quic ex st p : k_cookies st = [] -> fetch_data quic ex st p = fetch_data quic ex kzero p.
 Proof.
-  intro H. unfold fetch_data. rewrite H. destruct (exchange_keys ex p) as [d e]. cbn [fst snd].
+  intro H. unfold fetch_data. rewrite H. cbn [k_cookies kzero].
+  destruct (exchange_of_ignores_state quic ex st kzero p) as [He Hd].
+  destruct (exchange_keys_of quic ex st p) as [d e] eqn:E1. destruct (exchange_keys_of quic ex kzero p) as [d' e'] eqn:E2.
+  cbn [snd] in He, Hd. subst e'. destruct (e =? 0) eqn:E0; [|reflexivity].
+  apply Z.eqb_eq in E0. specialize (Hd E0). inversion Hd; subst. reflexivity.
+Qed.
+
+Lemma fetch_cached quic ex st p c rest : k_cookies st = c :: rest ->
+  fetch_data quic ex st p = (set_cookies st rest, {| fo_err := 0; fo_data := st; fo_exchanged := false |}).
+Proof. intro H. unfold fetch_data. rewrite H. reflexivity. Qed.
+
+Lemma fetch_exchange_result quic ex st p : k_cookies st = [] ->
+  fo_exchanged (snd (fetch_data quic ex st p)) = true /\
+  fo_err (snd (fetch_data quic ex st p)) = snd (exchange_keys_of quic ex st p) /\
+  (snd (exchange_keys_of quic ex st p) = 0 ->
+     fo_data (snd (fetch_data quic ex st p)) = fst (exchange_keys_of quic ex st p) /\
+     fst (fetch_data quic ex st p) = set_cookies (fst (exchange_keys_of quic ex st p)) (tl (k_cookies (fst (exchange_keys_of quic ex st p))))).
+Proof.
+  intro H. unfold fetch_data. rewrite H. destruct (exchange_keys_of quic ex st p) as [d e]. cbn [fst snd].
   destruct (e =? 0) eqn:E; cbn [fst snd fo_exchanged fo_err fo_data].
   - apply Z.eqb_eq in E. subst e. repeat split; reflexivity.
   - apply Z.eqb_neq in E. split; [reflexivity|]. split; [reflexivity|]. intro. contradiction.
@@ -739,15 +885,90 @@ Proof.
   destruct (scan (delivered (sc_recs sc) (sc_cut sc)) acc0) as [[| |] a]; cbn in *; congruence.
 Qed.
 
-Lemma fetch_failure_clears : forall ex st p st' fo,
-  fetch_data ex st p = (st', fo) -> fo_err fo <> 0 -> st' = kzero /\ fo_exchanged fo = true.
+Lemma fetch_failure_clears : forall quic ex st p st' fo,
+  fetch_data quic ex st p = (st', fo) -> fo_err fo <> 0 -> st' = kzero /\ fo_exchanged fo = true.
 Proof.
-  intros ex st p st' fo H Herr. unfold fetch_data in H.
+  intros quic ex st p st' fo H Herr. unfold fetch_data in H.
   destruct (k_cookies st) as [|c rest].
-  - destruct (exchange_keys ex p) as [d e]. destruct (e =? 0) eqn:E.
+  - destruct (exchange_keys_of quic ex st p) as [d e]. destruct (e =? 0) eqn:E.
     + inversion H; subst. simpl in Herr. congruence.
     + inversion H; subst. split; reflexivity.
   - inversion H; subst. simpl in Herr. congruence.
+Qed.
+
+(* ---------- readable forms, QUIC ---------- *)
+
+Lemma success_iff_quic ex st sc : sc_strict sc = true -> exporter_ok ex ->
+  (snd (exchange_keys_quic ex st (peer_of_script sc)) = 0 <->
+   alpn_agreed_quic sc = true /\ stream_accepted (sc_recs sc) (sc_cut sc) = true).
+Proof.
+  intros Hs Hex. pose proof (exchange_strict_quic ex st sc Hs Hex) as H.
+  destruct (alpn_agreed_quic sc); destruct (stream_accepted (sc_recs sc) (sc_cut sc)); cbn [andb] in H.
+  - rewrite H. cbn. split; [intros _; split; reflexivity|reflexivity].
+  - split; [intro; contradiction|intros [_ ?]; discriminate].
+  - split; [intro; contradiction|intros [? _]; discriminate].
+  - split; [intro; contradiction|intros [? _]; discriminate].
+Qed.
+
+Lemma success_data_quic ex st sc : sc_strict sc = true -> exporter_ok ex ->
+  snd (exchange_keys_quic ex st (peer_of_script sc)) = 0 ->
+  fst (exchange_keys_quic ex st (peer_of_script sc)) = expected_data_quic ex sc.
+Proof.
+  intros Hs Hex H0. pose proof (exchange_strict_quic ex st sc Hs Hex) as H.
+  destruct (alpn_agreed_quic sc && stream_accepted (sc_recs sc) (sc_cut sc)); [rewrite H; reflexivity|contradiction].
+Qed.
+
+Lemma scan_no_target rs : (forall r, In r rs -> r_type r <> 6 /\ r_type r <> 7) -> forall a,
+  a_server (snd (scan rs a)) = a_server a /\ a_port (snd (scan rs a)) = a_port a.
+Proof.
+  induction rs as [|r rs IH]; intros Hn a; [split; reflexivity|].
+  destruct (Hn r (or_introl eq_refl)) as [H6 H7].
+  assert (Hn' : forall r', In r' rs -> r_type r' <> 6 /\ r_type r' <> 7) by (intros r' Hin; apply Hn; right; exact Hin).
+  apply Z.eqb_neq in H6, H7. cbn [scan]. rewrite H6, H7.
+  repeat match goal with |- context [if ?c then _ else _] => destruct c end;
+    try (split; reflexivity);
+    match goal with |- context [scan rs ?a'] =>
+      let E1 := fresh "E" in let E2 := fresh "E" in
+      destruct (IH Hn' a') as [E1 E2]; rewrite E1, E2; split; reflexivity end.
+Qed.
+
+Lemma delivered_incl rs : forall k r, In r (delivered rs k) -> In r rs.
+Proof.
+  induction rs as [|x rs IH]; intros k r; cbn [delivered]; [intros []|].
+  destruct (length (wire_rec x) <=? k)%nat; [|intros []].
+  intros [H|H]; [left; exact H|right; apply (IH _ _ H)].
+Qed.
+
+Lemma quic_default_target ex st sc : sc_strict sc = true -> exporter_ok ex ->
+  snd (exchange_keys_quic ex st (peer_of_script sc)) = 0 ->
+  (forall r, In r (sc_recs sc) -> r_type r <> 6 /\ r_type r <> 7) ->
+  k_server (fst (exchange_keys_quic ex st (peer_of_script sc))) = sc_host sc /\
+  k_port (fst (exchange_keys_quic ex st (peer_of_script sc))) = 10123.
+Proof.
+  intros Hs Hex H0 Hn. rewrite (success_data_quic ex st sc Hs Hex H0).
+  unfold expected_data_quic, scanned. cbn [k_server k_port].
+  destruct (scan_no_target (delivered (sc_recs sc) (sc_cut sc))
+              (fun r Hin => Hn r (delivered_incl _ _ _ Hin)) acc0) as [E1 E2].
+  rewrite E1, E2. split; reflexivity.
+Qed.
+
+Lemma no_end_fails_quic ex st sc : sc_strict sc = true -> exporter_ok ex ->
+  (forall r, In r (delivered (sc_recs sc) (sc_cut sc)) -> r_type r <> 0) ->
+  snd (exchange_keys_quic ex st (peer_of_script sc)) <> 0.
+Proof.
+  intros Hs Hex Hn H0. apply (success_iff_quic ex st sc Hs Hex) in H0 as [_ Hacc].
+  unfold stream_accepted in Hacc. pose proof (scan_no_end _ Hn acc0) as Hne.
+  destruct (scan (delivered (sc_recs sc) (sc_cut sc)) acc0) as [[| |] a]; cbn in *; congruence.
+Qed.
+
+Lemma keys_agree_quic ex st p dC dS dS' : exchange_keys_quic ex st p = (dC, 0) -> export_keys ex dS = (dS', 0) ->
+  k_c2s dC = k_c2s dS' /\ k_s2c dC = k_s2c dS' /\
+  ex exporter_label ctx_c2s key_len = Some (k_c2s dC) /\ ex exporter_label ctx_s2c key_len = Some (k_s2c dC) /\
+  ctx_c2s <> ctx_s2c.
+Proof.
+  intros Hx Hs. destruct (exchange_success_facts_quic ex st p dC Hx) as [_ [_ [_ [_ [Hc2s [Hs2c _]]]]]].
+  unfold export_keys in Hs. rewrite Hs2c, Hc2s in Hs. inversion Hs; subst. cbn.
+  repeat split; try assumption. discriminate.
 Qed.
 
 (* ---------- the message of the project's own key-exchange server ---------- *)
@@ -817,11 +1038,11 @@ Proof.
   reflexivity.
 Qed.
 
-Theorem own_server_exchange ex mk ip port host : exporter_ok ex ->
+Theorem own_server_exchange_of quic ex st mk ip port host : exporter_ok ex ->
   body_ok ip -> (forall i, body_ok (mk i)) -> (forall i, Z.of_nat (length (mk i)) <= 896) -> 0 <= port < 65536 ->
   exists c2s s2c,
     ex exporter_label ctx_c2s key_len = Some c2s /\ ex exporter_label ctx_s2c key_len = Some s2c /\
-    exchange_keys ex {| p_up := true; p_alpn := [alpn_ntske]; p_host := host; p_stream := server_msg mk ip port |}
+    exchange_keys_of quic ex st {| p_up := true; p_alpn := [alpn_ntske]; p_host := host; p_stream := server_msg mk ip port |}
     = ({| k_c2s := c2s; k_s2c := s2c; k_server := ip; k_port := port;
           k_cookies := map mk (seq 0 8); k_algo := 15 |}, 0).
 Proof.
@@ -834,15 +1055,39 @@ Proof.
   assert (Hpeer : peer_of_script sc = {| p_up := true; p_alpn := [alpn_ntske]; p_host := host; p_stream := server_msg mk ip port |}).
   { unfold peer_of_script, script_stream, sc. cbn [sc_mode sc_alpn sc_host sc_recs sc_tail sc_cut].
     rewrite app_nil_r, firstn_all. unfold rs. rewrite <- server_msg_wire by assumption. reflexivity. }
-  pose proof (exchange_strict ex sc Hstrict Hex) as H. rewrite Hpeer in H.
+  pose proof (exchange_strict_of quic ex st sc Hstrict Hex) as H. rewrite Hpeer in H.
   assert (Hdel : delivered rs (length (wire rs)) = rs) by (apply delivered_all; lia).
-  assert (Hacc : alpn_agreed sc && stream_accepted (sc_recs sc) (sc_cut sc) = true).
-  { unfold stream_accepted, sc. cbn [sc_recs sc_cut]. rewrite Hdel.
-    unfold rs, own_recs. cbn [seq map app scan r_type r_crit r_body Z.eqb Pos.eqb acc0 a_algo a_server a_port a_cookies].
+  assert (Hacc : alpn_agreed_of quic sc && stream_accepted (sc_recs sc) (sc_cut sc) = true).
+  { replace (alpn_agreed_of quic sc) with true by (destruct quic; reflexivity).
+    unfold stream_accepted, sc. cbn [sc_recs sc_cut]. rewrite Hdel.
+    unfold rs, own_recs. cbv [seq map app scan r_type r_crit r_body Z.eqb Pos.eqb acc0 a_algo a_server a_port a_cookies].
     unfold algo_is_siv, has_cookie, cookies_fit. cbn [a_algo a_cookies app forallb]. unfold cookie_fits.
     repeat rewrite (proj2 (Z.leb_le _ _) (Hfit _)). reflexivity. }
   rewrite Hacc in H. destruct Hex as [c2s [s2c [Hc Hs]]]. exists c2s, s2c. split; [exact Hc|]. split; [exact Hs|].
-  rewrite H. unfold expected_data, scanned, sc. cbn [sc_recs sc_cut sc_host]. rewrite Hdel, Hc, Hs.
-  unfold rs, own_recs. cbn [seq map app scan r_type r_crit r_body Z.eqb Pos.eqb acc0 a_algo a_server a_port a_cookies snd opt_bytes opt_z].
+  rewrite H. replace (expected_data_of quic ex sc) with (expected_data ex sc).
+  2:{ destruct quic; [|reflexivity]. unfold expected_data_of, expected_data_quic, expected_data, scanned, sc.
+      cbn [sc_recs sc_cut sc_host]. rewrite Hdel. unfold rs, own_recs.
+      cbv [seq map app scan r_type r_crit r_body Z.eqb Pos.eqb acc0 a_algo a_server a_port a_cookies snd opt_bytes opt_z].
+      reflexivity. }
+  unfold expected_data, scanned, sc. cbn [sc_recs sc_cut sc_host]. rewrite Hdel, Hc, Hs.
+  unfold rs, own_recs. cbv [seq map app scan r_type r_crit r_body Z.eqb Pos.eqb acc0 a_algo a_server a_port a_cookies snd opt_bytes opt_z].
   f_equal. f_equal. unfold body16, enc16. cbn [r_body nth]. lia.
 Qed.
+
+Theorem own_server_exchange ex mk ip port host : exporter_ok ex ->
+  body_ok ip -> (forall i, body_ok (mk i)) -> (forall i, Z.of_nat (length (mk i)) <= 896) -> 0 <= port < 65536 ->
+  exists c2s s2c,
+    ex exporter_label ctx_c2s key_len = Some c2s /\ ex exporter_label ctx_s2c key_len = Some s2c /\
+    exchange_keys ex {| p_up := true; p_alpn := [alpn_ntske]; p_host := host; p_stream := server_msg mk ip port |}
+    = ({| k_c2s := c2s; k_s2c := s2c; k_server := ip; k_port := port;
+          k_cookies := map mk (seq 0 8); k_algo := 15 |}, 0).
+Proof. exact (own_server_exchange_of false ex kzero mk ip port host). Qed.
+
+Theorem own_server_exchange_quic ex st mk ip port host : exporter_ok ex ->
+  body_ok ip -> (forall i, body_ok (mk i)) -> (forall i, Z.of_nat (length (mk i)) <= 896) -> 0 <= port < 65536 ->
+  exists c2s s2c,
+    ex exporter_label ctx_c2s key_len = Some c2s /\ ex exporter_label ctx_s2c key_len = Some s2c /\
+    exchange_keys_quic ex st {| p_up := true; p_alpn := [alpn_ntske]; p_host := host; p_stream := server_msg mk ip port |}
+    = ({| k_c2s := c2s; k_s2c := s2c; k_server := ip; k_port := port;
+          k_cookies := map mk (seq 0 8); k_algo := 15 |}, 0).
+Proof. exact (own_server_exchange_of true ex st mk ip port host). Qed.
